@@ -69,3 +69,13 @@ Theorem run_feasible_acd : forall {A} (cfg : @config R) (K : @kernels R A) X y p
   feasI cfg P (o_w out) (o_Xw out).
 Proof. intros A. exact (@andersoncd_returns_feasible A). Qed.
 Print Assumptions run_feasible_acd.
+
+(* IndicatorBox: every coefficient outside [0, C] is in the generalized support (regenerated kernel), so it is forced into
+   the working set (C01: the working set holds the whole support) and projected back by the first epoch: a warm-started
+   refit with a smaller C is feasible after one epoch, whatever the budget *)
+Theorem box_infeasible_coefficients_are_in_the_support : forall C (w : list R) gs,
+  @IndicatorBox_generalized_support R _ C w = Ok gs ->
+  length gs = length w /\
+  forall j, (j < length w)%nat -> (nth j w 0 < 0 \/ C < nth j w 0) -> 0 <= C -> nth j gs false = true.
+Proof. exact IndicatorBox_gsupp_covers_infeasible. Qed.
+Print Assumptions box_infeasible_coefficients_are_in_the_support.
